@@ -124,7 +124,13 @@ def handleOne (inp out : Sexp) : CaseResult :=
           ++ (if !qVis then ["VISIBLE-QUBIT-SPEC-FAIL"] else [])
           ++ (if !qOk then ["QUBIT-SPEC-FAIL"] else [])
           ++ (if !wp then ["PROJECTION-NOT-WELL-FORMED"] else [])
-        { agree := mOut == out && wp, specOk := spec && qVis,
+        -- default-resolved positions are compared up to the choice of fresh values (Spec.lean, `maskBody`);
+        -- the implementation's concrete choice is judged by the specification
+        let (mt, mq) := mode.defaults
+        let sameUpToFresh := match m with
+          | some mb => maskBody mt mq body o == maskBody mt mq body mb
+          | none => false
+        { agree := sameUpToFresh && spec && qVis && wp, specOk := spec && qVis,
           nontrivial := nPhQ + nPhT > 0,
           tags := tags, detail := s!"model={mOut} impl={out}" }
     | _, _, _, _ => .bad s!"undecodable input {inp}"
@@ -162,12 +168,18 @@ def handleSeq (inp out : Sexp) : CaseResult :=
         | some used0, some isteps =>
           let wp := wellProjectedB body
           let ibodies := isteps.map (·.1)
-          let m := resolveSeq calls body
-          let agreeBodies := m == some ibodies
-          -- model of the cache: initial = add_instruction's extension, then rebuilt after every call
-          let mUsed := match m with
-            | some outs => (body :: outs).map (fun b => canonQubits (usedQubitsOf defq b))
-            | none => []
+          -- stepwise: each call of the model is applied to the body the IMPLEMENTATION's previous call left
+          -- (the default resolvers may pick other fresh values than the model, so the iterated model would
+          -- drift); default-resolved positions are compared up to the choice of fresh values
+          let befores := body :: ibodies.dropLast
+          let triples := (calls.zip befores).zip ibodies
+          let m : List (Option (List Instr)) := triples.map fun ((c, b), _) => resolveMode c.mode c.tmap c.qmap b
+          let agreeBodies := calls.length == ibodies.length && triples.all fun ((c, b), o) =>
+            match resolveMode c.mode c.tmap c.qmap b with
+            | some mb => maskBody c.mode.defaults.1 c.mode.defaults.2 b o == maskBody c.mode.defaults.1 c.mode.defaults.2 b mb
+            | none => false
+          -- model of the cache: initial = add_instruction's extension, then rebuilt from the current body
+          let mUsed := (body :: ibodies).map (fun b => canonQubits (usedQubitsOf defq b))
           let iUsed := canonQubits used0 :: isteps.map (fun st => canonQubits st.2.1)
           let agreeUsed := mUsed == iUsed
           -- spec on the implementation's outputs
@@ -201,7 +213,7 @@ def handleSeq (inp out : Sexp) : CaseResult :=
             ++ [(if sharedPh then "placeholder-shared-with-calibration" else if defPh then "calibration-placeholders"
                  else "no-calibration-placeholders")]
             ++ (if !wp then ["PROJECTION-NOT-WELL-FORMED"] else [])
-          { agree := agreeBodies && agreeUsed && wp && defsSame, specOk := spec && cacheOk && defsSame,
+          { agree := agreeBodies && agreeUsed && wp && defsSame && spec, specOk := spec && cacheOk && defsSame,
             nontrivial := (qubitPlaceholders body).length + (targetPlaceholders (getTargets body)).length > 0,
             tags := tags,
             detail := s!"model={repr m} modelUsed={mUsed} impl={out}" }
@@ -247,7 +259,15 @@ def handleTables (inp out : Sexp) : CaseResult :=
           qs.all (fun | .list [.atom k, v] => (match k.toNat? with
               | some k => (bodyQ.contains k) == (v != .atom "none") | none => false) | _ => false)
         | _ => false
-      { agree := mOut == out && wellProjectedB body, specOk := specOk,
+      -- which placeholders get an entry must match exactly; the values only up to the choice of fresh values
+      let pattern (x : Sexp) : Sexp := match x with
+        | .list [.atom "tables", .list (.atom "dt" :: es), .list (.atom "dq" :: qs)] =>
+          .list ((es ++ qs).map fun
+            | .list [k, .atom "none"] => .list [k, .atom "none"]
+            | .list [k, _] => .list [k, .atom "some"]
+            | y => y)
+        | y => y
+      { agree := pattern mOut == pattern out && specOk && wellProjectedB body, specOk := specOk,
         nontrivial := tq.length + qq.length > 2,
         tags := ["tables", baseTag body, s!"tq{min tq.length 6}", s!"qq{min qq.length 6}",
           (if tq.length + qq.length > 64 then "more-than-64-placeholders" else "few-placeholders")],
